@@ -115,13 +115,13 @@ theorem umax32_eq (x y : Nat) : Gen.Facts.umax32 x y = Decimal.umax x y := by
   unfold Gen.Facts.umax32 Decimal.umax
   by_cases h : x > y <;> simp [h]
 
-theorem wrapI64_eq (n : Int) : Gen.Facts.wrapI64 n = Decimal.wrap64 n := rfl
+theorem wrapI64_eq (n : Int) : Gen.Facts.wrapI64 n = Decimal.wrap64 n := by
+  unfold Gen.Facts.wrapI64 Decimal.wrap64; omega
 
 /-- `addExp` as generated is the model's `addExpSat`, for all integers. -/
 theorem addExp_eq (a b : Int) : Gen.Facts.addExp a b = Decimal.addExpSat a b := by
   unfold Gen.Facts.addExp Decimal.addExpSat
   simp only [wrapI64_eq, Decimal.MaxInt64, Decimal.MinInt64]
-  rfl
 
 /-- `ord`: the class ordering used by `Cmp`. -/
 theorem ord_eq (x : Dec) : Gen.Facts.ord x.form.toNat x.neg = Decimal.ord x := by
